@@ -2,7 +2,7 @@
    Only ExtrOcamlBasic is used: nat, positive, N, Z stay the extracted inductives. *)
 Require Extraction.
 Require Import ExtrOcamlBasic.
-From LogV Require Import Base.Bytes Base.Utf8 Base.JsonStr Model.Tag Model.Escape Model.Retention Model.Level Model.Deliver Model.Route Model.Field Model.Encoder Model.Layout Model.Expr Model.Async Model.Entry Model.RawWrite Model.Lifecycle Model.Rolling Model.Sink Base.Json Proofs.JsonProofs Proofs.EncoderProofs Proofs.LayoutProofs Proofs.TextProofs.
+From LogV Require Import Base.Bytes Base.Utf8 Base.JsonStr Model.Tag Model.Escape Model.Retention Model.Level Model.Deliver Model.Route Model.Field Model.Encoder Model.Layout Model.Expr Model.Async Model.Entry Model.RawWrite Model.Lifecycle Model.Rolling Model.Sink Model.Config Model.ConfigEnv Gen.Schema Base.Dec Base.Json Proofs.JsonProofs Proofs.EncoderProofs Proofs.LayoutProofs Proofs.TextProofs.
 Extraction Language OCaml.
 Extraction "model.ml" Z.add Z.mul Z.opp Z.of_N Z.to_N N.add N.of_nat N.to_nat
   is_valid_tag build_tag register_tag all_tags
@@ -17,4 +17,5 @@ Extraction "model.ml" Z.add Z.mul Z.opp Z.of_N Z.to_N N.add N.of_nat N.to_nat
   log_call enable
   rrun drain_all write_raw_refs
   lrun l_start
-  f_init fstep frun.
+  f_init fstep frun
+  to_camel_key to_storage expand_all is_marker new_plugin_from_map refresh gen_env minimal_cfg top_level_plugins field_of s_ref fmt_int.
